@@ -16,6 +16,7 @@ R5.13 the union decoder reads the discriminator from the type as given and keeps
 R5.14 the class name synthesized for an unnamed inline response body depends on the response (status), not on the operation alone
 R5.15 the resolver's self-import decision compares the package of the current file (else `cast("Pets", response.json())`: raw dicts)   [= R13.9]
 R5.16 the decoder emitted for a streamed JSON body follows the response's `stream_format` (ndjson -> iter_ndjson, not the SSE decoder)
+R5.21 a JSON scalar of a primitive union comes back as the variant of its own JSON type (an integral number stays a number)                          [= R14.15]
 R5.19 the arm of an exact success status is written before any range-guarded arm (a 206 body is not decoded as the `2XX` response)          [= R6.14]
 R5.18 a primary success response declared as the range `2XX` (the strategy resolver accepts every key that starts with 2) gets a success arm in the
       generated dispatch - otherwise the method has no return / yield at all                                                        [= R13.10]
@@ -231,6 +232,7 @@ def run(repo: Repo, rep: Report, tier: str) -> None:
     from rules._reuse import reuse as _reuse519
 
     _reuse519(repo, rep, "c06", {"R6.14": "R5.19"})  # an exact 2xx arm is never shadowed by the 2XX range arm
+    _reuse519(repo, rep, "c14", {"R14.15": "R5.21"})  # a scalar body of a primitive union keeps its JSON type (10 stays a number)
     # R5.15: a tag module is never taken for a model module of the same name (the body would be handed back as raw dicts through `cast`)  [= R13.9]
     from rules.c13 import rule_self_import_compares_the_package
 
